@@ -187,7 +187,7 @@ def mixin(tok, sid, delay, console):
     raise HarnessError(f"base token {tok!r}")
 
 
-def compose(bases_tok, delay, staged=0, merge=False):
+def compose(bases_tok, delay, staged=0, merge=False, refine=False):
     """`staged` = k > 0: the LAST k bases (with the shell / connector they may contain) form a class of their own
     when that is a complete machine — it is instantiated and entered once, fault-free and unrecorded, before the
     class of the case is derived from it by adding the remaining mixins in front (`class Case(Mix0, …, Base)`):
@@ -200,6 +200,7 @@ def compose(bases_tok, delay, staged=0, merge=False):
     # `merge`: ONE class provides two kinds of step (as a board class that defines both `_init_pre_connect` and
     # `_init_post_shell` does): the last mixin of kind A and the first of kind B, where every A precedes every B in the
     # declaration — then the merged class, placed where the A mixin was, keeps the order of the steps of both kinds
+    refined = []
     merged = {}
     if merge:
         cm = [(sid, tok) for sid, tok in enumerate(toks) if tok[0] in CM_KINDS and tok[1:] in STYLES]
@@ -226,6 +227,14 @@ def compose(bases_tok, delay, staged=0, merge=False):
             bases.append(type(f"Mix2_{sid}_{other}", (b1, b2), {
                 m1: (lambda st, i: lambda self: make_cm(st, self._life, i))(tok[1:], sid),
                 m2: (lambda st, i: lambda self: make_cm(st, self._life, i))(toks[other][1:], other)}))
+        elif refine and tok[0] in CM_KINDS and tok[1:] in STYLES and not refined:
+            # a step mixin REFINED by a subclass that overrides the hook and delegates to the class it refines (the
+            # override itself is not a step of its own: Machine.__enter__ runs the hook of the class that lists the
+            # initialiser kind among its direct bases — once)
+            refined.append(sid)
+            mix = mixin(tok, sid, delay, bool(hosts))
+            meth = CM_KINDS[tok[0]][1]
+            bases.append(type(f"Refined{sid}", (mix,), {meth: (lambda mx, mt: lambda self: getattr(mx, mt)(self))(mix, meth)}))
         else:
             bases.append(mixin(tok, sid, delay, bool(hosts)))
     kinds = [t[0] for t in toks]
@@ -323,10 +332,10 @@ def run_case(line):
     toks = line.split()
     if len(toks) < 2:
         raise HarnessError("case needs <bases> <delay>")
-    merge = toks[1].endswith("+m")
-    dtok = toks[1][:-2].split("@") if merge else toks[1].split("@")
+    merge, refine = toks[1].endswith("+m"), toks[1].endswith("+r")
+    dtok = toks[1][:-2].split("@") if (merge or refine) else toks[1].split("@")
     delay = int(dtok[0])
-    cls, host = compose(toks[0], delay, int(dtok[1]) if len(dtok) > 1 else 0, merge)
+    cls, host = compose(toks[0], delay, int(dtok[1]) if len(dtok) > 1 else 0, merge, refine)
     rec = Recorder()
     bases = [] if toks[0] == "." else toks[0].split(",")
     rec.power_sid = bases.index("w") if "w" in bases else None
